@@ -17,6 +17,7 @@ import (
 	"github.com/btcsuite/btcwallet/waddrmgr"
 	"github.com/btcsuite/btcwallet/wallet"
 	"github.com/btcsuite/btcwallet/wtxmgr"
+	"github.com/lightningnetwork/lnd/clock"
 	"pgregory.net/rapid"
 
 	"verifharness/internal/evid"
@@ -27,6 +28,8 @@ type run struct {
 	*walletsim.Scenario
 	published map[wire.OutPoint]chainhash.Hash // inputs of transactions the wallet published
 	nOK, nRefusedExplicit, nFail int
+	clk      *clock.TestClock
+	expiries map[wire.OutPoint]time.Time
 }
 
 func (r *run) history(t *rapid.T) {
@@ -37,7 +40,20 @@ func (r *run) history(t *rapid.T) {
 	cbHeight := s.F.Chain.Tip().Height
 	steps := rapid.IntRange(3, 10).Draw(t, "historySteps")
 	for i := 0; i < steps; i++ {
-		switch rapid.SampledFrom([]string{"fund-mempool", "fund-mined", "mine", "wallet-spend", "foreign-spend", "reorg", "lock", "lease"}).Draw(t, "hist") {
+		switch rapid.SampledFrom([]string{"fund-mempool", "fund-mined", "mine", "wallet-spend", "foreign-spend", "reorg", "lock", "lease", "lease", "clock"}).Draw(t, "hist") {
+		case "clock":
+			// the store's clock moves (build-tagged setter): leases whose expiry is reached end
+			d := time.Duration(rapid.SampledFrom([]int{1, 59, 60, 61, 119, 120, 600}).Draw(t, "advanceMin")) * time.Minute
+			now := r.clk.Now().Add(d)
+			r.clk.SetTime(now)
+			for op, exp := range r.expiries {
+				if !now.Before(exp) {
+					delete(s.Leased, op)
+					delete(r.expiries, op)
+					s.C.Class("lease-expired-by-clock")
+				}
+			}
+			s.C.Logf("clock +%v", d)
 		case "fund-mempool":
 			tx := s.FundingTx(rapid.IntRange(1, 3).Draw(t, "nOuts"))
 			s.F.Chain.AddToMempool(tx)
@@ -110,10 +126,12 @@ func (r *run) history(t *rapid.T) {
 					s.F.Violation("ReleaseOutput of own lease failed: %v", err)
 				}
 				delete(s.Leased, co.OutPoint)
+				delete(r.expiries, co.OutPoint)
 				s.C.Logf("release lease on %s:%d", co.OutPoint.Hash.String()[:8], co.OutPoint.Index)
 				continue
 			}
-			_, err := s.F.W.LeaseOutput(id, co.OutPoint, time.Hour)
+			dur := time.Duration(rapid.SampledFrom([]int{60, 120}).Draw(t, "leaseMin")) * time.Minute
+			exp, err := s.F.W.LeaseOutput(id, co.OutPoint, dur)
 			if cur, ok := s.Leased[co.OutPoint]; ok && cur != id {
 				if err == nil {
 					s.F.Violation("LeaseOutput under a second identifier succeeded on %v", co.OutPoint)
@@ -124,7 +142,11 @@ func (r *run) history(t *rapid.T) {
 				s.F.Violation("LeaseOutput(%v) failed: %v", co.OutPoint, err)
 			}
 			s.Leased[co.OutPoint] = id
-			s.C.Logf("lease %s:%d", co.OutPoint.Hash.String()[:8], co.OutPoint.Index)
+			if !exp.Equal(r.clk.Now().Add(dur)) {
+				s.F.Violation("LeaseOutput returned expiry %v, expected now+%v = %v", exp, dur, r.clk.Now().Add(dur))
+			}
+			r.expiries[co.OutPoint] = time.Unix(exp.Unix(), 0)
+			s.C.Logf("lease %s:%d for %v", co.OutPoint.Hash.String()[:8], co.OutPoint.Index, dur)
 		}
 	}
 	// bring the coinbase to its maturity boundary
@@ -426,7 +448,9 @@ func TestC06EligibleInputs(t *testing.T) {
 		defer c.End()
 		s := walletsim.NewScenario(t, "C06", c, 5, 1)
 		defer s.F.Close()
-		r := &run{Scenario: s, published: map[wire.OutPoint]chainhash.Hash{}}
+		r := &run{Scenario: s, published: map[wire.OutPoint]chainhash.Hash{}, expiries: map[wire.OutPoint]time.Time{},
+			clk: clock.NewTestClock(time.Unix(1_750_000_000, 0))}
+		s.F.W.TxStore.VerifSetClock(r.clk)
 		r.history(t)
 		n := rapid.IntRange(1, maxReq).Draw(t, "nRequests")
 		for i := 0; i < n; i++ {
